@@ -1,6 +1,6 @@
 (* C14, second generation - proofs: every log the model of SimpleLoop
    produces (callbacks that act included) passes the checker of R14Model.v,
-   as long as no K10 entry is logged. *)
+   *)
 From Coq Require Import ZArith List Bool Arith Lia ZifyBool.
 From Desper Require Import Lib.Alist Loop.RBus Loop.RModel Loop.RFacts Loop.R14Model.
 Import ListNotations.
@@ -85,7 +85,6 @@ Proof. intros s s' l' r [= <- <- <-] _ _ _ prev p. reflexivity. Qed.
 Section BusSim.
   Variable react : ekind -> action -> M.
   Hypothesis Hgood : forall k a, good (react k a).
-  Hypothesis Hcalm : forall k a, calm (react k a).
   Hypothesis Hsim : forall k a, sim14 (react k a).
 
   Lemma sim_deliver w e : sim14 (deliver react w e).
@@ -179,7 +178,6 @@ End BusSim.
 Section PerformSim.
   Variable react : ekind -> action -> M.
   Hypothesis Hgood : forall k a, good (react k a).
-  Hypothesis Hcalm : forall k a, calm (react k a).
   Hypothesis Hsim : forall k a, sim14 (react k a).
 
   Lemma sim_body a s s' l r prev :
@@ -205,14 +203,14 @@ Section PerformSim.
       + assert (C' : cur_ok (set_reacts rest s)) by (exists qc; exact C).
         destruct r1 as [|x].
         * destruct H2 as (l2&H2&->). injection H2 as <- <- <-. apply nok10_app in N as [N1 _].
-          cbn [app] in N1. unfold nok10 in N1. cbn [forallb] in N1.
+          cbn [app] in N1.
           pose proof (Hgood _ _ _ _ _ _ D1' I C' N1) as (_&Fw&Fh&_).
           split; [discriminate|]. cbn [app]. rewrite Step. rewrite run14_app.
           rewrite (Hsim _ _ _ _ _ _ D1' I C' N1). cbn [pend_of run14 mp].
           cbn in Fw, Fh. now rewrite Fw, Fh.
         * destruct H2 as (->&->&->). split; [discriminate|].
           cbn [app]. rewrite <- (app_nil_r l1') at 1. rewrite Step, app_nil_r.
-          cbn [app] in N. unfold nok10 in N. cbn [forallb] in N.
+          cbn [app] in N.
           rewrite (Hsim _ _ _ _ _ _ D1' I C' N). destruct x; reflexivity.
       + injection D1' as <- <- <-. destruct H2 as (l2&H2&->). injection H2 as <- <- <-.
         split; [discriminate|]. cbn. now rewrite Z.eqb_refl.
@@ -231,8 +229,7 @@ Section PerformSim.
   Proof.
     intros s s' l r H I C N prev p. unfold perform in H.
     apply andthen_inv in H as (s1&l1&r1&E1&H2). injection E1 as <- <- <-.
-    destruct H2 as (l2&H2&->). cbn [app] in N |- *. unfold nok10 in N. cbn [forallb] in N.
-    apply andb_prop in N as [_ N].
+    destruct H2 as (l2&H2&->). cbn [app] in N |- *.
     destruct (action_eq_dec a ANormal) as [->|Ha].
     - cbn [perform_body] in H2. injection H2 as <- <- <-. reflexivity.
     - destruct (sim_body a _ _ _ _ prev H2 I C N Ha) as (st&A&Rn&Run).
@@ -277,6 +274,19 @@ Proof.
   destruct r6 as [|x].
   - destruct H7 as (l7&H7&->). injection H7 as <- <- <-. rewrite app_nil_r. exact S.
   - destruct H7 as (->&->&->). exact S.
+Qed.
+
+Lemma handler_sim f n : forall h cc cn s s' l r,
+  handler (react_n f) n h cc cn s = Some (s', l, r) -> inv s ->
+  forall prev, run14 nps (mp prev PSwitch) l = Some (mp prev (pend_of r s' PSwitch)).
+Proof.
+  induction n as [|n IH]; intros h cc cn s s' l r H I prev; cbn [handler] in H; [discriminate|].
+  destruct (loop_switch (react_n f) h cc cn s) as [[[s1 l1] r1]|] eqn:LS; [|discriminate].
+  pose proof (loop_switch_sim _ _ _ _ _ _ _ _ LS I eq_refl prev) as S1.
+  destruct (loop_switch_post _ _ _ _ _ _ _ _ LS I eq_refl) as (I1&_).
+  destruct r1 as [|[| |h2 cc2 cn2 t2]]; try (injection H as <- <- <-; exact S1).
+  destruct (handler (react_n f) n h2 cc2 cn2 s1) as [[[s2 l2] r2]|] eqn:Hd; [|discriminate].
+  injection H as <- <- <-. rewrite run14_app, S1. cbn [pend_of]. apply (IH _ _ _ _ _ _ _ Hd I1).
 Qed.
 
 (* ---- iterations ----------------------------------------------------------- *)
@@ -352,8 +362,7 @@ Proof.
         as (I2&Fw2&Fh2&_&_&C2&_).
       unfold perform in Pf.
       apply andthen_inv in Pf as (s0&l0&r0&E0&Pb). injection E0 as <- <- <-.
-      destruct Pb as (l2'&Pb&->). cbn [app] in N2. unfold nok10 in N2. cbn [forallb] in N2.
-      apply andb_prop in N2 as [_ N2].
+      destruct Pb as (l2'&Pb&->). cbn [app] in N2.
       destruct (sim_body (react_n fuel) (react_n_good fuel) (react_n_sim fuel) _ _ _ _ _
                   (Some (f_t f)) Pb I1 C1 N2 Ha) as (st&A&Rn&Run).
       split; [exact I2|]. split; [congruence|]. split; [congruence|]. split; [exact C2|].
@@ -378,14 +387,14 @@ Proof.
       destruct (K N) as (_&_&_&_&Rn&_). congruence.
     + apply (Plain XQuit); reflexivity.
     + apply (Plain XOther); reflexivity.
-    + destruct (loop_switch (react_n fuel) h cc cn s2) as [[[s3 l3] r3]|] eqn:LS; [|discriminate].
+    + destruct (handler (react_n fuel) fuel h cc cn s2) as [[[s3 l3] r3]|] eqn:LS; [|discriminate].
       st_inv. intros N.
       apply nok10_app in N as [_ N]. apply nok10_app in N as [_ N]. apply nok10_app in N as [N2 N3].
       destruct (K N2) as (I2&_&_&_&_&Run).
-      destruct (loop_switch_post _ _ _ _ _ _ _ _ LS I2 N3) as (I3&C3&_&Ns3&_).
+      destruct (handler_post _ _ _ _ _ _ _ _ _ LS I2) as (I3&C3&Ns3).
       split; [exact I3|]. split; [exact C3|].
       rewrite Head, Run. cbn [pend_of].
-      rewrite (loop_switch_sim _ _ _ _ _ _ _ _ LS I2 N3 (Some (f_t f))).
+      rewrite (handler_sim _ _ _ _ _ _ _ _ _ LS I2 (Some (f_t f))).
       eexists. split; [reflexivity|]. split; [reflexivity|]. cbn [a_mode mp].
       destruct r3 as [|x3]; [left; reflexivity|]. apply end_mode_of_res. discriminate.
 Qed.
@@ -439,32 +448,26 @@ Qed.
 End WithNps.
 
 (* ---- all operations of a case -------------------------------------------- *)
-Definition frames_ok (x : op * list entry) : bool :=
-  match fst x with OTop _ _ _ _ => true | OStart fs _ _ => forallb frame_origin_ok fs end.
-
 Lemma ops14 nps (Hnps : nps_ok nps) ops : forall s,
   inv s -> (cur_ok s \/ first_is_top ops = true) ->
-  forallb frames_ok ops = true ->
-  existsb (fun x => existsb k10_entry (snd x)) ops = false ->
+  forallb op_ok ops = true ->
   run_ops nps None ops s = true ->
   forallb (fun x => match fst x with
                     | OTop _ _ _ _ => true
                     | OStart _ _ _ => start14 nps (snd x)
                     end) ops = true.
 Proof.
-  induction ops as [|[o obs] ops IH]; intros s I C W K; cbn [run_ops forallb]; auto.
+  induction ops as [|[o obs] ops IH]; intros s I C W; cbn [run_ops forallb]; auto.
   destruct (run_op nps None o s) as [[[s1 last1] l]|] eqn:R; [|discriminate].
   intros H. apply andb_prop in H as [H1 H2].
   apply log_eqb_eq in H1. subst obs. cbn [fst snd].
-  cbn [forallb] in W. apply andb_prop in W as [W1 W2]. unfold frames_ok in W1. cbn [fst] in W1.
-  cbn [existsb snd] in K. apply orb_false_elim in K as [K1 K2].
-  assert (N : nok10 l = true).
-  { unfold nok10. clear - K1. induction l as [|e l IHl]; cbn in *; auto.
-    apply orb_false_elim in K1 as [A B]. rewrite A. cbn. auto. }
+  cbn [forallb] in W. apply andb_prop in W as [W1 W2]. unfold op_ok in W1. cbn [fst snd] in W1.
+  assert (N : nok10 l = true) by reflexivity.
   destruct o as [h cc cn rs|fs ek rs]; cbn [run_op] in R.
   - destruct (loop_switch _ h cc cn (set_reacts rs s)) as [[[s2 l2] r2]|] eqn:S; [|discriminate].
     injection R as <- <- <-. apply nok10_app in N as [N _].
     destruct (loop_switch_post _ _ _ _ _ _ _ _ S I N) as (I2&C2&_).
+    apply top_escape_sw in W1. specialize (C2 W1).
     cbn [andb]. apply (IH (set_inh false s2)); auto.
   - destruct C as [C|C]; [|discriminate].
     destruct (start14_ok nps Hnps _ _ _ _ _ _ _ I C W1 R N) as (A&->&I1&C1).
